@@ -152,7 +152,7 @@ Fixpoint zassoc {A} (k : Z) (l : list (Z * A)) : option A :=
 Definition macc_name (m : Z) : string :=
   match find (fun e => snd e =? m) macc_table with
   | Some e => fst e
-  | None => if 1000 <=? m then "collective-escrow" else "account"
+  | None => if 1000 <=? m then (if Z.even m then "collective-bond-account" else "collective-donation-account") else "account"
   end.
 (* permissions of the module accounts as app/app.go grants them (generated table) *)
 Definition perms_of_gen : list (Z * (bool * bool)) :=
@@ -181,11 +181,11 @@ Definition kind_name (k : Z) : string :=
   if k =? 1 then "staked" else if k =? 2 then "undelegation" else if k =? 3 then "reward" else if k =? 4 then "basket-reserve"
   else if k =? 5 then "basket-surplus" else if k =? 6 then "spending-pool" else if k =? 7 then "tip" else if k =? 10 then "dapp-bond"
   else if k =? 11 then "collective-bond" else if k =? 12 then "collective-donation" else if k =? 13 then "recovery-backing"
-  else if k =? 14 then "rr-reward" else "record".
+  else if k =? 14 then "rr-reward" else if k =? 15 then "collective-donated-bond" else "record".
 
 (* record classes the genesis does not carry at all (layer2 and collectives Init/ExportGenesis are empty: C12's known findings
    lost:layer2/KeyPrefixDapp, lost:layer2/PrefixUserDappBondKey, lost:collectives/...): every other class must round-trip *)
-Definition not_exported_kinds : list Z := [10; 11; 12].
+Definition not_exported_kinds : list Z := [10; 11; 12; 15].
 
 Section Checker.
 Variable dclass : list (Z * Z).                 (* denom id -> class *)
@@ -212,7 +212,7 @@ Definition state_clauses (o : ostate) : list string :=
   ++ flat_map (fun k => if oliab o (fst k) (snd k) <=? obal o (fst k) (snd k) then []
                         else ["insolvent:" +++ macc_name (fst k) +++ ":" +++ class_name (class_of (snd k))
                               (* a shortfall of a few base units (a rounding step) is a different failure class than a lost payment *)
-                              +++ (if oliab o (fst k) (snd k) - obal o (fst k) (snd k) <=? 3 then ":rounding" else "")])
+                              +++ (if oliab o (fst k) (snd k) - obal o (fst k) (snd k) <=? 8 then ":rounding" else "")])
               (dedup2 (map (fun e => match e with (m, _, _, d, _) => (m, d) end) (o_rec o)))
   (* every share token is redeemable under the pool's own redemption rule.  Old rule (amount*(1-slashed)):
      supply(share) / (1 - slashed) <= staked  (one unit of rounding slack) *)
